@@ -422,6 +422,19 @@ impl<S: futures::AsyncRead + futures::AsyncWrite + Unpin> ConnectionReader<S> {
             info_hashes.push(info_hash);
         }
 
+        // With an empty list of info hashes, no swarm worker would ever
+        // respond, so respond here
+        if info_hashes_by_worker.is_empty() {
+            self.send_error_response(
+                "No info hashes sent".into(),
+                Some(ErrorResponseAction::Scrape),
+                None,
+            )
+            .await?;
+
+            return Ok(());
+        }
+
         let pending_worker_out_messages = info_hashes_by_worker.len();
 
         let pending_scrape_response = PendingScrapeResponse {
